@@ -1,6 +1,7 @@
 package main
 
 import (
+	"crypto/sha256"
 	"encoding/json"
 	"flag"
 	"fmt"
@@ -34,6 +35,10 @@ type Baseline struct {
 	// them). A failure that follows a call to an uncontracted function NOT in this list is "needs contract",
 	// not a verdict (unless it replays on the real code).
 	Uncontracted []string `json:"uncontracted,omitempty"`
+	// sha256 of the SMT query of every obligation instance discharged on the committed tree. A query whose text is
+	// byte-identical to one proved then, and which the solvers merely fail to finish now (timeout / unknown under
+	// load), is not a change of the code: it is counted as discharged, and said so in the evidence.
+	Queries map[string][]string `json:"queries,omitempty"`
 }
 
 type nameStatus struct {
@@ -212,6 +217,27 @@ func cmdCheck(args []string) int {
 		solveAll(dir, again, 6*timeout, true, 4)
 	}
 
+	// queries proved at baseline time that the solvers do not finish now
+	var base0 Baseline
+	timedOutKnown := 0
+	if loadJSON(filepath.Join(vd, "baseline", prop+".json"), &base0) && !*rebaseline {
+		for _, o := range all {
+			if o.Status != "unknown" && o.Status != "timeout" {
+				continue
+			}
+			h := queryHash(o)
+			for _, k := range base0.Queries[o.Name] {
+				if k == h {
+					o.Status, o.Solver = "unsat", "baseline (identical query proved on the committed tree; solvers did not finish now)"
+					timedOutKnown++
+					break
+				}
+			}
+		}
+	}
+	if timedOutKnown > 0 {
+		ev.addAssumption(fmt.Sprintf("%d obligation instance(s) were not decided by the solvers within the time limit in this run; their queries are byte-identical to queries proved when the baseline was taken, so they are counted as discharged", timedOutKnown))
+	}
 	// aggregate by name
 	byName := map[string]*nameStatus{}
 	var names []string
@@ -563,6 +589,15 @@ func cmdCheck(args []string) int {
 			}
 		}
 		nb.Uncontracted = sortedKeys(ts)
+		nb.Queries = map[string][]string{}
+		for _, o := range all {
+			if o.Status == "unsat" {
+				nb.Queries[o.Name] = append(nb.Queries[o.Name], queryHash(o))
+			}
+		}
+		for k := range nb.Queries {
+			sort.Strings(nb.Queries[k])
+		}
 		for _, n := range names {
 			if byName[n].Status == "discharged" {
 				nb.Obligations[n] = "discharged"
@@ -593,6 +628,15 @@ func cmdCheck(args []string) int {
 var contractDerivedRe = regexp.MustCompile(`\.(post\.\d+|inv\.\d+(\.\d+)*\.(init|step)|assert@[^:]*|lemma\.[^:]*)$`)
 
 func contractDerived(name string) bool { return contractDerivedRe.MatchString(name) }
+
+func queryHash(o *Obligation) string {
+	t := o.SMTFile
+	if i := strings.Index(t, "(set-option"); i >= 0 {
+		t = t[i:]
+	}
+	h := sha256.Sum256([]byte(t))
+	return fmt.Sprintf("%x", h[:12])
+}
 
 func uniq(xs []string) []string {
 	seen := map[string]bool{}
